@@ -906,53 +906,114 @@ def _container_shape(r, lib, b, is_object):
 # ------------------------------------------------------------------ row framing
 
 def json_row(rep, lib):
-    r = rep.rule("C02-ROW", "JsonProcess::process writes one row = the text of Context::build() printed by the "
-                 "configured JSON printer, followed by exactly one row separator, in a single write", floor=3,
-                 analysis="A4 provenance of the write's two arguments + format_args template")
+    """What JsonProcess::process hands to the writer for one row, as a token sequence."""
+    r = rep.rule("C02-ROW", "JsonProcess::process writes, for one row, exactly the text self.printer prints for "
+                 "Context::build() followed by exactly one row separator - in one write or several, directly or "
+                 "through a buffer - and nothing else", floor=2,
+                 analysis="A5 partial evaluation with the buffer tracked symbolically (String::new / print_something "
+                          "into it / push_str) and the format_args templates of every write; A4 provenance of the "
+                          "printed value")
     b = lib.bodies.get("<output_style::JsonProcess as processor::Process>::process")
-    if b is None:
+    adt = lib.adts.get("output_style::JsonProcess")
+    if b is None or not adt:
         r.missing("JsonProcess::process")
         return
-    ws = [c for c in b.calls if is_write_fmt(c) or (c.callee or "").endswith("Write::write_fmt")]
-    if len(ws) != 1:
-        r.bad("JsonProcess::process/one-write", "expected one write per row, found %d" % len(ws), b.where())
+    fields = [f["name"] for f in adt["variants"][0]["fields"]]
+    if "line_seperator" not in fields or "printer" not in fields:
+        r.bad("JsonProcess/fields", "no line_seperator / printer field (unrecognised)", b.where())
         return
-    site = fmt_site(lib, ws[0])
-    if not site or [("ph" in p and p["ph"]) for p in site["pieces"]] != ["Display", "Display"]:
-        r.bad("JsonProcess::process/template", "the row template is not `{}{}` (row text, row separator): %s"
-              % (site and site["pieces"]), ws[0].where())
-        return
-    r.ok("JsonProcess::process/template", "`{}{}`", ws[0].where())
-    args = [c for c in b.calls if is_fmt_arg(c)]
+    L = ("tok", "L")
+    selfv = [None] * len(fields)
+    selfv[fields.index("line_seperator")] = L
+    out = []
+    pending = []
+    printed = []
+
+    def toks(v):
+        if v is None:
+            return ["?"]
+        if v == L:
+            return ["L"]
+        if v[0] == "sbuf":
+            return list(v[1])
+        return ["?"]
+
+    def setbuf(pe, envv, ref, val):
+        if ref is not None and ref[0] == "ref" and not [p for p in ref[2] if p != "deref"]:
+            envv[ref[1]] = val
+            return True
+        return False
+
+    def model(c, av, envv, pe):
+        n = c.name or ""
+        cal = c.callee or ""
+        if n.endswith("String::new"):
+            return (True, ("sbuf", ()))
+        if cal.startswith("output_style::Print::print") and len(av) >= 2:
+            cur = pe._deref_all(envv, av[1])
+            printed.append(c)
+            if cur is not None and cur[0] == "sbuf" and setbuf(pe, envv, av[1], ("sbuf", cur[1] + ("V",))):
+                pe.keep_mut_args = True
+            return (True, OK(UNIT))
+        if n.endswith("String::push_str") and len(av) >= 2:
+            cur = pe._deref_all(envv, av[0])
+            add = pe._deref_all(envv, av[1])
+            if cur is not None and cur[0] == "sbuf" and setbuf(pe, envv, av[0], ("sbuf", cur[1] + tuple(toks(add)))):
+                pe.keep_mut_args = True
+            return (True, UNIT)
+        if cal == "std::ops::Deref::deref":
+            x = pe._deref_all(envv, av[0]) if av else None
+            if x is not None and (x == L or x[0] == "sbuf"):
+                return (True, ("rv", x))
+            return None
+        if is_fmt_arg(c):
+            pending.append((c.loc.get("line"), c.loc.get("col"), pe._deref_all(envv, av[0]) if av else None))
+            return None
+        if is_write_fmt(c) or cal.endswith("Write::write_all") or cal.endswith("Write::write"):
+            site = fmt_site(lib, c)
+            if site is None:
+                out.append("?")
+            else:
+                args = [v for (ln, col, v) in pending if ln == c.loc.get("line") and col == c.loc.get("col")]
+                for p_ in site["pieces"]:
+                    if "lit" in p_:
+                        out.append("lit:%r" % p_["lit"])
+                    elif p_["ph"] == "Display" and not p_["width"] and not p_["precision"] and p_["arg"] < len(args):
+                        out.extend(toks(args[p_["arg"]]))
+                    else:
+                        out.append("?")
+            del pending[:]
+            return (True, OK(UNIT))
+        if n == "processor::Context::build":
+            return (True, ("tok", "built"))
+        return None
+    pe = PE(b, model, eq_ok=common.derived_eq_ok(lib), max_states=20000)
+    res = pe.run(env={1: ("rv", ("adt", 0, tuple(selfv)))})
+    okret = [v for _, v in res.returns if v is not None and v[0] == "adt" and v[1] == 0]
+    if res.forks:
+        r.bad("JsonProcess::process/row", "what is written depends on something other than the row (fork at bb%d): "
+              "unrecognised idiom" % res.forks[0], b.where())
+    elif out != ["V", "L"] or not okret:
+        r.bad("JsonProcess::process/row", "one row is written as %s; expected the printed value followed by exactly one "
+              "row separator (V = text printed by the JSON printer, L = self.line_seperator)" % out, b.where())
+    else:
+        r.ok("JsonProcess::process/row", "writes V L (printed value, row separator)", b.where())
+    # the value printed is Context::build() of the incoming row, printed by self.printer
     pr = Prov(b, common.LOOK + ("Deref>::deref",))
-    adt = lib.adts.get("output_style::JsonProcess")
-    fields = [f["name"] for f in adt["variants"][0]["fields"]] if adt else []
-    if len(args) != 2 or "line_seperator" not in fields or "printer" not in fields:
-        r.bad("JsonProcess::process/args", "cannot identify the two arguments of the row template", ws[0].where())
-        return
-    a0 = pr.origins(args[0].args[0])
-    a1 = pr.origins(args[1].args[0])
-    sep = "f%d" % fields.index("line_seperator")
-    is_sep = lambda at: any(a[0] == "arg" and a[1] == 1 and sep in a[2] for a in at)
-    # the buffer: a local String filled by print_something (outparam)
-    ps = [c for c in b.calls if (c.callee or "").endswith("Print::print_something")]
-    filled = any(a[0] == "outparam" and ps and a[1] == ps[0].bb for a in a0) or \
-        any(a[0] == "call" and (b.call_at[a[1]].name or "").endswith("String::new") for a in a0)
-    if is_sep(a1) and not is_sep(a0) and filled and len(ps) == 1:
-        r.ok("JsonProcess::process/args", "(buffer printed by print_something, self.line_seperator)", ws[0].where())
-    else:
-        r.bad("JsonProcess::process/args", "the row is not written as (printed text, then self.line_seperator)",
-              ws[0].where())
-        return
-    p = ps[0]
-    recv = pr.origins(p.args[0])
-    val = pr.origins(p.args[2])
+    ps = [c for c in b.calls if (c.callee or "").startswith("output_style::Print::print")]
     pf = "f%d" % fields.index("printer")
-    from_build = any(a[0] == "call" and (b.call_at[a[1]].name or "").endswith("Context::build") for a in val)
-    if any(a[0] == "arg" and a[1] == 1 and pf in a[2] for a in recv) and from_build:
-        r.ok("JsonProcess::process/value", "self.printer.print_something(&mut buffer, &context.build())", p.where())
+    good = len(ps) == 1 and ps[0].method() == "print_something"
+    if good:
+        recv = pr.origins(ps[0].args[0])
+        val = pr.origins(ps[0].args[2])
+        builds = [b.call_at[a[1]] for a in val if a[0] == "call" and (b.call_at[a[1]].name or "").endswith("Context::build")]
+        good = any(a[0] == "arg" and a[1] == 1 and pf in a[2] for a in recv) and len(builds) == 1 and \
+            any(a[0] == "arg" and a[1] == 2 for a in pr.origins(builds[0].args[0]))
+    if good:
+        r.ok("JsonProcess::process/value", "self.printer.print_something(&mut buffer, &context.build())", ps[0].where())
     else:
-        r.bad("JsonProcess::process/value", "the text is not self.printer's rendering of context.build()", p.where())
+        r.bad("JsonProcess::process/value", "the text is not self.printer's rendering of Context::build() of the "
+              "incoming row", b.where())
 
 
 # ====================================================================== text / csv printer (C15)
